@@ -126,8 +126,13 @@ def build_motif(params, B):
 
 def mk_start(params):
 	s = params["start"]
+	if s is None:
+		return None
 	if params.get("startkind") == "npint":
 		return numpy.int64(s)
+	if params.get("startkind") == "tensor0d" and s is not None:
+		# a position taken from a tensor (e.g. an argmax)
+		return torch.tensor(s)
 	return s
 
 
@@ -178,10 +183,11 @@ def case_subins(cls, params, rec):
 	m = len(params["motif"]) if params["form"] in ("str", "t1") else len(
 		params["motif"][0])
 	p = params["start"]
-	mon = gen.Immutable(X=X, Xbase=xbase, motif=mt)
+	startarg = mk_start(params)
+	mon = gen.Immutable(X=X, Xbase=xbase, motif=mt, start=startarg
+		if isinstance(startarg, torch.Tensor) else None)
 	kw = {"alphabet": list(alpha(A))}
-	st, val = gen.call(getattr(ersatz, fn), X, marg, start=mk_start(params),
-		**kw)
+	st, val = gen.call(getattr(ersatz, fn), X, marg, start=startarg, **kw)
 	ch = mon.changed()
 	if ch:
 		rec.violation(cls, params, {"what": "caller tensor modified",
@@ -321,11 +327,15 @@ def case_multi(cls, params, rec):
 	sp = [spacing] * (len(mis) - 1) if isinstance(spacing, int) else list(
 		spacing)
 	start = params["start"]
+	startarg = mk_start(params)
+	if isinstance(startarg, torch.Tensor):
+		watch["start"] = startarg
+		rec.count("tensor_start_multisubstitute")
 	mon = gen.Immutable(X=X, Xbase=xbase, **watch)
 	sparg = spacing if isinstance(spacing, int) else list(spacing)
 	margs_before = list(margs)
-	st, val = gen.call(ersatz.multisubstitute, X, margs, sparg, start=start,
-		alphabet=list(alpha(A)))
+	st, val = gen.call(ersatz.multisubstitute, X, margs, sparg,
+		start=startarg, alphabet=list(alpha(A)))
 	if (not isinstance(spacing, int) and sparg != list(spacing)) or len(
 		margs) != len(margs_before) or any(a is not b for a, b in zip(margs,
 		margs_before)):
@@ -662,7 +672,7 @@ def run_rand(unit, rec):
 				mot = [gen.rand_seq(r, m, al) for _ in range(B)]
 			for p in bstarts:
 				pr = dict(base, motif=mot, form=form, start=p,
-					startkind=r.choice(["int", "npint"]))
+					startkind=r.choice(["int", "npint", "tensor0d"]))
 				if form == "tWrong":
 					pr["wrong_k"] = r.choice([k for k in (2, 3, B + 1, B + 2)
 						if k not in (1, B)])
@@ -686,8 +696,8 @@ def run_rand(unit, rec):
 			for p in (0, L - total, L - total + 1, L - total - 1, -1, None,
 				r.randint(0, max(0, L - total))):
 				run_case("rand-multisubstitute", dict(base, motifs=mots,
-					forms=forms, spacing=(sp[0] if same else sp), start=p),
-					rec)
+					forms=forms, spacing=(sp[0] if same else sp), start=p,
+					startkind=r.choice(["int", "npint", "tensor0d"])), rec)
 		else:
 			for (s, e) in ((0, 1), (0, L - 1), (0, L), (L - 2, L - 1),
 				(-1, 3), (2, 2), (3, 1), (1, L + 1),
